@@ -20,7 +20,7 @@ bash on every check (classes `function-extglob`, `alias-function-name`, `functio
   test case.
 
 `persist` is the order as it is now (fixes e15e02e, 6fb091a, bb09a36, 75c64cd): `shopt -s extglob`, the
-functions, the aliases, the variables, and last the options (`shopt` before `set -o`). The earlier orders
+functions, the variables, the aliases, and last the options (`shopt` before `set -o`). The earlier orders
 are kept (`persistOld`, `persistSetFirst`, `persistAliasesFirst`, `persistOptionsFirst`) with a witness
 each on which they lose state (Props/C12.lean).
 -/
@@ -84,10 +84,12 @@ def fresh : St := { extglob := false, funcs := [], vars := [] }
 def optionLines (s : St) : List Line :=
   [.setExtdebug s.extdebug, .setExtglob s.extglob, .setErrtrace s.errtrace, .setAllexport s.allexport]
 
-/-- the state file as it is written now: `shopt -s extglob`, `declare -f`, `alias -p`, the variables,
-`shopt -p`, `set +o` -/
+/-- the state file as it is written now: `shopt -s extglob`, `declare -f`, the variables (and directories, which
+this model does not have), `alias -p`, `shopt -p`, `set +o`. (Between fixes bb09a36 and 919989c the aliases stood in
+front of the variables; for what is modelled here that made no difference -- the lines that restore variables and
+directories are not subject to alias expansion in this model --, the stream of the harness shows the difference.) -/
 def persist (s : St) : List Line :=
-  [.setExtglob true] ++ s.funcs.map .defFn ++ s.aliases.map .defAlias ++ s.vars.map .setVar ++ optionLines s
+  [.setExtglob true] ++ s.funcs.map .defFn ++ s.vars.map .setVar ++ s.aliases.map .defAlias ++ optionLines s
 
 /-- the state file as it was written before fix e15e02e: options first, functions after them, no forced extglob -/
 def persistOld (s : St) : List Line :=
@@ -127,8 +129,8 @@ structure Cmd where
 def hookCmds (s : St) : List Cmd :=
   [ ⟨[.setExtglob true], 0⟩,                 -- echo "shopt -s extglob"
     ⟨s.funcs.map .defFn, 0⟩,                 -- declare -f
-    ⟨s.aliases.map .defAlias, 0⟩,            -- alias -p
     ⟨s.vars.map .setVar, 0⟩,                 -- declare -p | grep …
+    ⟨s.aliases.map .defAlias, 0⟩,            -- alias -p
     ⟨optionLines s, 0⟩ ]                     -- shopt -p; set +o
 
 /-- the commands between fixes e15e02e and 296e2dd: `shopt -p extglob` behind the functions, whose status is 1
